@@ -900,11 +900,56 @@ def check_edit(case, rec):
     rec.key = hashlib.sha1(s.encode()).hexdigest()[:16]
 
 
+
+# ---- version 1: user functions that consume axes, `f:ij(...)` ----------------------------------------------------------------
+
+@st.composite
+def v1consume_cases(draw, tier):
+    nd = draw(st.integers(2, 3))
+    letters = list(draw(st.permutations('ijk'[:nd])))           # order of the indices on the array
+    ncons = draw(st.integers(1, nd))
+    cons = list(draw(st.permutations(letters)))[:ncons]          # consumed indices, in the order written after the colon
+    free = [l for l in letters if l not in cons]
+    out = list(draw(st.permutations(free)))
+    return dict(nd=nd, letters=letters, cons=cons, out=out, w=[draw(st.sampled_from([-2., -1., .5, 1., 3.])) for _ in range(9)], vals=[draw(st.integers(-5, 5)) for _ in range(24)], twice=draw(st.booleans()))
+
+
+def check_v1consume(case, rec):
+    from nutils import function, expression_v1
+    shape = {'i': 2, 'j': 3, 'k': 4}
+    letters, cons, out = case['letters'], case['cons'], case['out']
+    A = numpy.resize(numpy.array(case['vals'], dtype=float), [shape[l] for l in letters])
+    # the function contracts consumed axis number q with its own weight vector: not symmetric in the consumed axes
+    W = [numpy.resize(numpy.array(case['w']) * (q + 1), 4) + q for q in range(3)]
+    def weigh(arg, *, consumes=0):
+        arg = function.Array.cast(arg)
+        for q in reversed(range(consumes)):
+            arg = (arg * W[q][:arg.shape[-1]]).sum(-1)
+        return arg
+    ns = expression_v1.Namespace(functions=dict(weigh=weigh))
+    ns.A = A
+    s = 'weigh:{}(A_{})'.format(''.join(cons), ''.join(letters))
+    if case['twice'] and out: s = '2 ' + s + ' + ' + s
+    # reading: the consumed axes, in the order given after the colon, are axes 0, 1, .. of the function's trailing block; the rest keeps the requested order
+    sub = ''.join(letters) + ',' + ','.join(cons) + '->' + ''.join(out)
+    want = numpy.einsum(sub, A, *[W[q][:shape[c]] for q, c in enumerate(cons)]) * (3 if case['twice'] and out else 1)
+    try:
+        f = getattr(ns, 'eval_' + ''.join(out))(s)
+        got = numpy.asarray(function.eval(f))
+    except Exception as e:
+        raise Violation('valid-raised', f'v1 {s!r} (eval_{"".join(out)}): {type(e).__name__}: {str(e)[:200]}', where='v1consume:raised:' + type(e).__name__)
+    if got.shape != want.shape or not numpy.allclose(got, want, rtol=1e-12, atol=1e-12):
+        raise Violation('wrong-value', f'v1 {s!r} with eval_{"".join(out)}: {got.tolist()} != {want.tolist()} (A has axes {letters}; consumed axis q is contracted with weight vector q)', where='v1consume:value')
+    rec.nontrivial = len(cons) >= 2
+    rec.label('v1consume:%d-of-%d' % (len(cons), case['nd']), *(['v1consume:order-differs'] if [l for l in letters if l in cons] != cons else []))
+
+
 SUBS = [Sub('valid', valid_cases, check_valid, {'quick': 1500, 'thorough': 20000}, weight=4),
         Sub('corrupt', corrupt_cases, check_corrupt, {'quick': 600, 'thorough': 6000}, weight=1),
         Sub('v1', v1_cases, check_v1, {'quick': 100, 'thorough': 1000}, weight=1),
         Sub('edits', edit_cases, check_edit, {'quick': 1500, 'thorough': 30000}, weight=1),
-        Sub('fields', field_cases, check_fields, {'quick': 500, 'thorough': 8000}, weight=3, timeout=120)]
+        Sub('fields', field_cases, check_fields, {'quick': 500, 'thorough': 8000}, weight=3, timeout=120),
+        Sub('v1consume', v1consume_cases, check_v1consume, {'quick': 150, 'thorough': 2000}, weight=1)]
 
 TRIGGERS = {}
 
